@@ -56,18 +56,38 @@ func (m *MonC01) OnEvent(w *World, rec *StepRec) []*Violation {
 			}
 		}
 	}
-	if rec.Restarted || rec.AppliedSnap != nil {
+	// nothing is dropped from or reordered in the committed sequence raft hands to a
+	// node (hand-out order = order of the Readys; an installed snapshot or a restart
+	// starts a new run)
+	if rd := rec.Ready; rd != nil && rec.Node >= 0 && !rec.Restarted {
+		var batch []*pb.Entry
+		if w.Nodes[rec.Node].Cfg.Async {
+			for _, q := range rec.QueuedLocal {
+				if q.GetType() == pb.MsgStorageApply {
+					batch = append(batch, q.GetEntries()...)
+				}
+			}
+		} else {
+			batch = rd.CommittedEntries
+		}
+		if rd.Snapshot != nil && rd.Snapshot.GetMetadata().GetIndex() > 0 {
+			m.own()
+			m.cursor[rec.Node] = rd.Snapshot.GetMetadata().GetIndex()
+		}
+		for _, e := range batch {
+			if c := m.cursor[rec.Node]; c != 0 && e.GetIndex() != c+1 {
+				out = append(out, &Violation{"C01", "no-drop-no-reorder", fmt.Sprintf("node %d was handed index %d right after index %d", rec.Node+1, e.GetIndex(), c)})
+			}
+			m.own()
+			m.cursor[rec.Node] = e.GetIndex()
+		}
+	}
+	if rec.Restarted {
 		m.own()
-		m.cursor[rec.Node] = 0 // the sequence restarts (after the configured index / the snapshot)
+		m.cursor[rec.Node] = 0 // a new incarnation starts a new run
 	}
 	for _, e := range rec.AppliedEnts {
 		idx := e.GetIndex()
-		// nothing is dropped from or reordered in the committed sequence a node is handed
-		if c := m.cursor[rec.Node]; c != 0 && idx != c+1 {
-			out = append(out, &Violation{"C01", "no-drop-no-reorder", fmt.Sprintf("node %d was handed index %d right after index %d", rec.Node+1, idx, c)})
-		}
-		m.own()
-		m.cursor[rec.Node] = idx
 		if old, ok := m.applied[idx]; ok {
 			if !entEqual(old, e) {
 				out = append(out, &Violation{"C01", "applied-agree", fmt.Sprintf("node %d was handed %s at index %d, but %s was handed out there before", rec.Node+1, entStr(e), idx, entStr(old))})
